@@ -1,7 +1,73 @@
-(* C11 placeholder *)
+(* C11 - the control-flow graph has exactly the successors the bytecode allows.  Property theorems only.
+   childs code bs b are the entries (offset of the last instruction, target, start of the successor block) of block b,
+   fathers the entries (target, offset of the branching instruction, start of the predecessor block);
+   get_basic_block bs v is the block whose byte range holds v; sized insl: every instruction has at least two bytes. *)
 From Coq Require Import ZArith List.
-Require Import V.Analysis.CfgModel.
+Require Import V.Analysis.CfgModel V.Analysis.CfgProofs.
 Import ListNotations.
 Open Scope Z_scope.
-Example C11_nonvacuous : length (blocks_of (with_off 0 [{| ilen := 2; ikind := KIf 2 |}; {| ilen := 2; ikind := KPlain |}; {| ilen := 2; ikind := KExit |}]) []) = 3%nat.
-Proof. vm_compute. reflexivity. Qed.
+
+(* successors by the kind of the last instruction: none after return/throw, the target for goto, the next instruction and
+   the target for a conditional, the next instruction and every case target for a switch, the next block otherwise;
+   each looked up with get_basic_block (targets outside every block give no entry) *)
+Theorem C11_successors_by_kind : forall code bs b lidx li, b_last b = Some (lidx, li) ->
+  childs code bs b =
+  match ikind li with
+  | KExit => []
+  | KGoto off => lookup_targets bs lidx [off * 2 + lidx]
+  | KIf off => lookup_targets bs lidx [lidx + ilen li; off * 2 + lidx]
+  | KSwitch off => lookup_targets bs lidx (determine_next code lidx li)
+  | _ => match get_basic_block bs (b_end b + 1) with Some c => [(lidx, b_end b, b_start c)] | None => [] end
+  end.
+Proof. exact childs_by_kind. Qed.
+Print Assumptions C11_successors_by_kind.
+
+Theorem C11_switch_targets : forall code lidx li off, ikind li = KSwitch off ->
+  determine_next code lidx li =
+  (lidx + ilen li) ::
+  match get_ins_off code (off * 2 + lidx + (if (off * 2 + lidx) mod 4 =? 0 then 0 else 4 - (off * 2 + lidx) mod 4)) with
+  | Some {| ikind := KSwitchPayload ts |} => map (fun t => t * 2 + lidx) ts
+  | _ => []
+  end.
+Proof. exact switch_targets. Qed.
+Print Assumptions C11_switch_targets.
+
+(* the lookup is exact: the block found for an address is the one whose range holds it, and every held address finds it *)
+Theorem C11_lookup_finds_the_holding_block : forall insl excs c v, sized insl ->
+  let bs := blocks_of (with_off 0 insl) excs in
+  (get_basic_block bs v = Some c <-> In c bs /\ b_start c <= v < b_end c).
+Proof. exact lookup_exact. Qed.
+Print Assumptions C11_lookup_finds_the_holding_block.
+
+(* falling through reaches the next block of the list, the last block has no fall-through successor,
+   and the not-taken side of a conditional or switch (lidx + length) is the end of the block *)
+Theorem C11_fall_through_is_the_next_block : forall insl excs pre b c post, sized insl ->
+  blocks_of (with_off 0 insl) excs = pre ++ b :: c :: post ->
+  get_basic_block (blocks_of (with_off 0 insl) excs) (b_end b + 1) = Some c /\
+  get_basic_block (blocks_of (with_off 0 insl) excs) (b_end b) = Some c /\ b_start c = b_end b.
+Proof. exact next_block_lookup. Qed.
+Print Assumptions C11_fall_through_is_the_next_block.
+Theorem C11_last_block_falls_nowhere : forall insl excs pre b, sized insl ->
+  blocks_of (with_off 0 insl) excs = pre ++ [b] ->
+  get_basic_block (blocks_of (with_off 0 insl) excs) (b_end b + 1) = None.
+Proof. exact last_block_no_successor. Qed.
+Print Assumptions C11_last_block_falls_nowhere.
+Theorem C11_last_instruction_ends_block : forall insl excs b lidx li, In b (blocks_of (with_off 0 insl) excs) ->
+  b_last b = Some (lidx, li) -> lidx + ilen li = b_end b.
+Proof. exact last_instruction_ends_block. Qed.
+Print Assumptions C11_last_instruction_ends_block.
+
+(* predecessors are the inverse of the successor relation *)
+Theorem C11_predecessors_are_the_inverse : forall code bs b tgt src fs,
+  In (tgt, src, fs) (fathers code bs b) <-> exists f, In f bs /\ fs = b_start f /\ In (src, tgt, b_start b) (childs code bs f).
+Proof. exact fathers_inverse. Qed.
+Print Assumptions C11_predecessors_are_the_inverse.
+
+(* a packed-switch inside a loop whose head is the first instruction, one case jumping back to offset 0 *)
+Example C11_nonvacuous :
+  let insl := [{| ilen := 2; ikind := KPlain |}; {| ilen := 6; ikind := KSwitch 5 |}; {| ilen := 2; ikind := KPlain |};
+               {| ilen := 2; ikind := KExit |}; {| ilen := 12; ikind := KSwitchPayload [-1; 3] |}] in
+  let code := with_off 0 insl in let bs := blocks_of code [] in
+  map (childs code bs) bs = [[(2, 8, 8); (2, 0, 0); (2, 8, 8)]; []; []] /\
+  map (fathers code bs) bs = [[(0, 2, 0)]; [(8, 2, 0); (8, 2, 0)]; []].
+Proof. vm_compute. split; reflexivity. Qed.
